@@ -58,11 +58,11 @@ let run (f : string list) : string =
          let out = ref [] in
          let add s = out := s :: !out in
          let b2s x = if x then "1" else "0" in
-         add (Printf.sprintf "hyp=%s%s%s%s%s" (b2s (schema_okb sch))
+         add (Printf.sprintf "hyp=%s%s%s%s%s%s" (b2s (schema_okb sch))
                 (b2s (canonb sch None a && canonb sch None b && canonb sch None c))
                 (b2s (uniq_idsb sch a && uniq_idsb sch b && uniq_idsb sch c))
                 (b2s (supportedb sch a && supportedb sch b && supportedb sch c))
-                (b2s (wfb sch a && wfb sch b && wfb sch c)));
+                (b2s (wfb sch a && wfb sch b && wfb sch c)) (b2s (schema_nouo sch)));
          List.iter (fun o ->
            add (pr_d (diff sch o a a));
            let d = diff sch o a b in
